@@ -30,6 +30,11 @@ def cases(ctx):
             i += 1
             if k < 3 or ctx.mine(i):
                 yield {'r': r, 'words': gen.all_words(Sig, 4 if (thorough and k < 3) else 3)}
+    for k in range(0, 3):          # symbols that print like the constants 0 and 1
+        for r in gen.regexps_of_size(k, ['0', '1']):
+            i += 1
+            if k < 2 or not thorough or ctx.mine(i):
+                yield {'r': r, 'words': gen.all_words(['0', '1'], 3)}
     ctx.exhaustive = True
     rng = ctx.rng
     for i in range(800 if not thorough else 8000):
